@@ -27,7 +27,7 @@ ID = "C01"
 TECHNIQUE = "exhaustive enumeration of the scope-program grammar (all forests up to N blocks x kinds x supplies x probe positions) executed on the real context, environment-stack reference interpreter"
 RULE = (
     "all ordered forests of blocks with <= N nodes; block kind in {async scope, sync scope, "
-    "updated, async scope fed by disposables}; supply from an 8-element alphabet over {A, A2(A), "
+    "updated, async scope fed by disposables, async scope fed partly directly and partly by disposables (<= 2 blocks)}; supply from an 8-element alphabet over {A, A2(A), "
     "R(required attr), G[int]} (+ instances value-equal to the enclosing one, + U with a required "
     "union-typed attribute, in a 1-3 block sub-family); probe (ctx.state(T) and ctx.state(T, default) for every T) at "
     "every position, both probe orders; non-trivial = some type is supplied at two nesting levels "
@@ -106,6 +106,16 @@ def programs(tier: str):
                 for osup in (1, 4, 5):
                     yield {"forest": [{"l": [okind, osup], "c": [{"l": [kind, sup], "c": []}]}], "order": "d-first"}
                     yield {"forest": [{"l": [okind, osup], "c": [{"l": ["updated", 0], "c": [{"l": [kind, sup], "c": []}]}]}], "order": "nd-first"}
+    # mixed blocks: an async scope given its first state directly and the rest through
+    # disposables (all directly, with disposables that yield nothing, when one type would
+    # otherwise come from both sides - which side wins is not stated)
+    for n in (1, 2):
+        for shape in forest_shapes(n):
+            for labels in itertools.product([(k_, s_) for k_ in [*KINDS, "mscope"] for s_ in range(len(SUPPLY))], repeat=n):
+                if not any(lb[0] == "mscope" for lb in labels):
+                    continue
+                k += 1
+                yield {"forest": label_forest(shape, [list(x) for x in labels]), "order": "nd-first" if k % 2 else "d-first"}
     if tier == "thorough":
         n4 = 0
         for shape in forest_shapes(4):
@@ -165,6 +175,14 @@ def execute(program, ch: Chooser) -> Result:  # noqa: C901, PLR0915
             return ctx.scope(r["label"], *r["states"])
         if kind == "updated":
             return ctx.updated(*r["states"])
+        if kind == "mscope":
+            sts = list(r["states"])
+            direct, rest = sts[:1], sts[1:]
+            if {type(x) for x in direct} & {type(x) for x in rest}:
+                direct, rest = sts, []
+            lazy = int(r["label"][1:]) % 2 == 1
+            ds = disposables_for(rest, lazy=lazy) if (rest or not lazy) else []
+            return ctx.scope(r["label"], *direct, disposables=ds)
         # every other disposable-fed scope yields its states as one-shot generators
         return ctx.scope(r["label"], disposables=disposables_for(r["states"], lazy=int(r["label"][1:]) % 2 == 1))
 
@@ -240,7 +258,7 @@ def execute(program, ch: Chooser) -> Result:  # noqa: C901, PLR0915
                     await asyncio.sleep(0)
 
             try:
-                if kind in ("ascope", "dscope"):
+                if kind in ("ascope", "dscope", "mscope"):
                     async with cm:
                         await body()
                 else:
